@@ -1,5 +1,6 @@
 import XyzModel.Gen.Extracted
 import XyzProofs.Refine.Reap
+import XyzProofs.Lemmas.TwoMode
 /-!
 # Life cycle of a crop: the hand-written description is the translated source
 
@@ -292,6 +293,8 @@ theorem sowSamples_refines (o : LcOps C K A V) (fails) (n : Int) (combos : C) (c
   first
     | (simp only [Gen.sowSamplesLc, Gen.Default.sowSamplesLc, thenK_cons, thenK_nil]; done)
     | (simp only [Gen.sowSamplesLc, Gen.Default.sowSamplesLc, Gen.sowCasesLc, thenK_cons, thenK_nil]; done)
+    | (have e : @Gen.Default.sowCasesLc = @Gen.sowCasesLc := by same_gen [Gen.sowCasesLc, Gen.Default.sowCasesLc]
+       simp only [Gen.sowSamplesLc, Gen.Default.sowSamplesLc, e, thenK_cons, thenK_nil]; done)
 
 /-! ## reaping -/
 
